@@ -24,3 +24,4 @@ def rules(ctx):
     S.free_verdict_rules(ctx)
     S.survey_residue_rules(ctx)
     S.leaf_width_rules(ctx)
+    S.relocate_tree_rules(ctx)
